@@ -78,7 +78,9 @@ type saveObs struct {
 
 // c20Run builds a package of the chosen sources in 1-2 directories, optionally edits files, and
 // saves it with a resolver failing while file failFile is printed (0 = never).
-func c20Run(pick []int, dirs int, edited []int, failFile int) saveObs {
+// rel: the package is assembled the way a program does that works in its own directory tree: file names
+// relative to the working directory (as ParseDir("lib") records them) and a relative Package.Dir.
+func c20Run(pick []int, dirs int, edited []int, failFile int, rel bool) saveObs {
 	o := saveObs{Files: len(pick), FailFile: failFile}
 	root, err := os.MkdirTemp("", "dstv-save-")
 	if err != nil {
@@ -89,6 +91,15 @@ func c20Run(pick []int, dirs int, edited []int, failFile int) saveObs {
 	fset := token.NewFileSet()
 	d := decorator.NewDecoratorWithImports(fset, "example.com/pkg", goast.WithResolver(guess.New()))
 	pkg := &decorator.Package{Package: &packages.Package{PkgPath: "example.com/pkg"}, Decorator: d, Dir: root}
+	cwd, _ := os.Getwd()
+	if rel {
+		rd, err := filepath.Rel(cwd, filepath.Join(root, "d0"))
+		if err != nil {
+			o.Msg = err.Error()
+			return o
+		}
+		pkg.Dir = rd
+	}
 	var paths []string
 	for i, si := range pick {
 		dir := filepath.Join(root, fmt.Sprintf("d%d", i%dirs))
@@ -96,7 +107,14 @@ func c20Run(pick []int, dirs int, edited []int, failFile int) saveObs {
 		p := filepath.Join(dir, fmt.Sprintf("f%d.go", i))
 		os.WriteFile(p, []byte(c20Sources[si]), 0644)
 		paths = append(paths, p)
-		af, err := parser.ParseFile(fset, p, nil, parser.ParseComments)
+		name := p
+		if rel {
+			if name, err = filepath.Rel(cwd, p); err != nil {
+				o.Msg = err.Error()
+				return o
+			}
+		}
+		af, err := parser.ParseFile(fset, name, nil, parser.ParseComments)
 		if err != nil {
 			o.Msg = err.Error()
 			return o
@@ -272,15 +290,19 @@ func checkC20(c *Ctx) {
 						edited[i] = m % 3
 					}
 					for fail := 0; fail <= nf; fail++ {
-						o := c20Run(pick, dirs, edited, fail)
+						rel := n%4 == 3
+						o := c20Run(pick, dirs, edited, fail, rel)
 						key := fmt.Sprintf("files=%v dirs=%d edited=%v fail@%d", pick, dirs, edited, fail)
+						if rel {
+							key += " relative-names"
+						}
 						if o.Msg != "" && !o.Panic {
 							c.Infra("harness: " + o.Msg)
 							return
 						}
 						c.Eval(key, fail > 0 || mask != 0)
 						if o.Panic {
-							c.Fail(Finding{Sig: "save-panics", Input: key, What: o.Msg, Replay: obj{"kind": "c20", "key": key, "pick": pick, "dirs": dirs, "edited": edited, "fail": fail}})
+							c.Fail(Finding{Sig: "save-panics", Input: key, What: o.Msg, Replay: obj{"kind": "c20", "key": key, "pick": pick, "dirs": dirs, "edited": edited, "fail": fail, "rel": rel}})
 						}
 						for i := range o.Written {
 							if o.FailFile != 0 && i+1 < o.FailFile && !o.Written[i] {
@@ -291,7 +313,7 @@ func checkC20(c *Ctx) {
 						}
 						tr.Add(o)
 						keys = append(keys, key)
-						replays = append(replays, obj{"kind": "c20", "key": key, "pick": pick, "dirs": dirs, "edited": edited, "fail": fail})
+						replays = append(replays, obj{"kind": "c20", "key": key, "pick": pick, "dirs": dirs, "edited": edited, "fail": fail, "rel": rel})
 						n++
 						if n%97 == 0 {
 							c.Sample(obj{"case": key, "observed": o})
@@ -318,11 +340,12 @@ func init() {
 		var r struct {
 			Pick, Edited []int
 			Dirs, Fail   int
+			Rel          bool
 		}
 		if json.Unmarshal(raw, &r) != nil || len(r.Pick) == 0 || len(r.Edited) != len(r.Pick) {
 			return ""
 		}
-		o := c20Run(r.Pick, r.Dirs, r.Edited, r.Fail)
+		o := c20Run(r.Pick, r.Dirs, r.Edited, r.Fail, r.Rel)
 		if o.Panic {
 			return "SaveWithResolver panicked: " + o.Msg
 		}
